@@ -646,6 +646,19 @@ enum PassedArgumentType {
 
 impl PassedArgumentType {
     fn from_string(mut string: String) -> PassedArgumentType {
+        // `[==[text]==]`: the delimiters are as long as the level, and a first newline is not content
+        if let Some(rest) = string.strip_prefix('[') {
+            let level = rest.chars().take_while(|character| *character == '=').count();
+            if rest[level..].starts_with('[') && string.len() >= 2 * (level + 2) {
+                let text = &string[level + 2..string.len() - level - 2];
+                let text = text
+                    .strip_prefix("\r\n")
+                    .or_else(|| text.strip_prefix('\n'))
+                    .unwrap_or(text);
+                return PassedArgumentType::String(text.to_owned());
+            }
+        }
+
         string.pop();
         PassedArgumentType::String(string.chars().skip(1).collect())
     }
